@@ -670,3 +670,103 @@ def rule_V3(ctx, rid='V3'):
                    'are not guaranteed to lie inside the bound built "around" them'
                    % (what, unparse(a)[:50]))
     return n
+
+
+def rule_V4(ctx, rid='V4'):
+    ctx.rule(rid, 'enclosure by rescaling: minimum_volume_enclosing_ellipsoid ends by dividing A '
+             '(and multiplying A_inv) by the largest value of (x - c)^T A (x - c) over ALL points '
+             'it was given, so every construction point satisfies the returned inequality; '
+             'Ellipsoid.compute only ever enlarges (A_inv times enlarge_per_dim**2, A divided by '
+             'it) and builds the sampling matrix from that A_inv')
+    from .exprs import as_aug
+    prog = ctx.program
+    f = prog.func('basic.minimum_volume_enclosing_ellipsoid')
+    cfg = cfg_of(f)
+    pts = f.params[0]
+    n = 0
+    rets = [r for r in _returns(f) if isinstance(r.value, ast.Tuple) and len(r.value.elts) == 3
+            and all(isinstance(e, ast.Name) for e in r.value.elts) and cfg.has(r)]
+    if len(rets) != 1:
+        ctx.note('%s not decided: return (c, A, A_inv) of the enclosing-ellipsoid routine not '
+                 'found' % rid)
+        return 0
+    cname, aname, ainame = [e.id for e in rets[0].value.elts]
+    rid_ = cfg.node_of(rets[0]).id
+    # scale = max over the points of the quadratic form
+    scales = []
+    for st in walk_no_nested(f.node):
+        if isinstance(st, ast.Assign) and len(st.targets) == 1 and \
+                isinstance(st.targets[0], ast.Name) and isinstance(st.value, ast.Call) and \
+                dotted(st.value.func) in ('np.amax', 'np.max', 'max') and st.value.args:
+            q = st.value.args[0]
+            names = {x.id for x in ast.walk(q) if isinstance(x, ast.Name)}
+            diffs = [x for x in ast.walk(q) if isinstance(x, ast.BinOp) and
+                     isinstance(x.op, ast.Sub) and isinstance(x.left, ast.Name) and
+                     x.left.id == pts and isinstance(x.right, ast.Name) and x.right.id == cname]
+            if aname in names and len(diffs) >= 2:
+                scales.append(st)
+    ok_s = len(scales) == 1
+    n += 1
+    ctx.ob(rid, 'minimum_volume_enclosing_ellipsoid:scale-is-max-over-all-points', ok_s,
+           f.where(scales[0]) if scales else f.where(),
+           'scale = max over the given points of (x - %s)^T %s (x - %s)' % (cname, aname, cname)
+           if ok_s else
+           'no `scale = max((points - c)^T A (points - c))` over the points the routine was '
+           'given: the farthest construction point is not what the ellipsoid is stretched to')
+    if ok_s:
+        sname = scales[0].targets[0].id
+        sid = cfg.node_of(scales[0]).id
+        for target, op, what in ((aname, ast.Div, 'A is divided'), (ainame, ast.Mult,
+                                                                    'A_inv is multiplied')):
+            nodes = set()
+            for nn in cfg.nodes:
+                if nn.kind != 'stmt' or nn.ast is None:
+                    continue
+                r = as_aug(nn.ast)
+                if r is None:
+                    continue
+                t, o, v = r
+                if isinstance(t, ast.Name) and t.id == target and isinstance(o, op) and \
+                        isinstance(v, ast.Name) and v.id == sname:
+                    nodes.add(nn.id)
+            ok = bool(nodes) and cfg.must_pass(sid, rid_, nodes)
+            n += 1
+            ctx.ob(rid, 'minimum_volume_enclosing_ellipsoid:rescaled(%s)' % target, ok,
+                   f.where(scales[0]),
+                   '%s by that scale on every path to the return' % what if ok else
+                   '`%s` is returned without being %s by the scale: the matrix the bound is built '
+                   'from does not stretch the ellipsoid to the farthest construction point, so '
+                   'points it was built around lie outside it' % (
+                       target, 'divided' if op is ast.Div else 'multiplied'))
+    # Ellipsoid.compute: enlargement goes the right way and B comes from the enlarged A_inv
+    g = prog.func('Ellipsoid.compute')
+    for st in walk_no_nested(g.node):
+        r = as_aug(st) if isinstance(st, (ast.Assign, ast.AugAssign)) else None
+        if r is None:
+            continue
+        t, o, v = r
+        if not any(isinstance(x, ast.Name) and x.id == 'enlarge_per_dim' for x in ast.walk(v)):
+            continue
+        tn = unparse(t)
+        inv = tn.endswith('A_inv') or tn == 'A_inv'
+        okd = isinstance(o, ast.Mult) if inv else isinstance(o, ast.Div)
+        pw = isinstance(v, ast.BinOp) and isinstance(v.op, ast.Pow) and \
+            isinstance(v.right, ast.Constant) and v.right.value > 0
+        n += 1
+        ctx.ob(rid, 'Ellipsoid.compute:enlarges(%s)' % tn, okd and pw, g.where(st),
+               '%s is %s by a positive power of enlarge_per_dim (>= 1, validated): the ellipsoid '
+               'only grows' % (tn, 'multiplied' if inv else 'divided') if okd and pw else
+               '`%s` shrinks the ellipsoid: construction points on its surface end up outside'
+               % unparse(st)[:50])
+    chol = [st for st in walk_no_nested(g.node) if isinstance(st, ast.Assign) and
+            isinstance(st.value, ast.Call) and
+            dotted(st.value.func) in ('np.linalg.cholesky', 'scipy.linalg.cholesky', 'cholesky')]
+    okc = len(chol) == 1 and chol[0].value.args and unparse(chol[0].value.args[0]) in (
+        'A_inv', ainame) and unparse(chol[0].targets[0]).endswith('.B')
+    n += 1
+    ctx.ob(rid, 'Ellipsoid.compute:sampling-matrix-from-A_inv', bool(okc), g.where(),
+           'B is the Cholesky factor of the (enlarged) A_inv: B B^T = A_inv, so '
+           '|B^-1 (x - c)|^2 = (x - c)^T A (x - c)' if okc else
+           'the matrix B is not the Cholesky factor of A_inv: contains() does not test the '
+           'ellipsoid the construction points were enclosed in')
+    return n
